@@ -244,16 +244,16 @@ fn merge_report(a: &mut Agg, r: RunReport) {
 fn tier_count(prop: &str, thorough: bool) -> (u64, f64) {
     // (scenarios, wall cap seconds)
     let quick: u64 = match prop {
-        "C09" => 6_000,
-        "C10" => 12_000,
-        "C14" => 40_000,
-        "C07" | "C08" | "C12" | "C15" | "C20" => 60_000,
-        _ => 120_000,
+        "C09" => 60_000,
+        "C10" => 100_000,
+        "C14" => 250_000,
+        "C07" | "C08" | "C12" | "C15" | "C20" => 400_000,
+        _ => 800_000,
     };
     if thorough {
-        (quick * 40, 1500.0)
+        (quick * 30, 1800.0)
     } else {
-        (quick, 240.0)
+        (quick, 300.0)
     }
 }
 
